@@ -5,6 +5,7 @@ the generated `Gen.days` table (definition order = iteration order of the `Days`
 import Switcher.Model.Py
 import Switcher.Model.Tools
 import Switcher.Model.Messages
+import Switcher.Spec.Zone
 import Switcher.Gen.Tables
 import Switcher.Gen.Guards
 namespace Model
@@ -166,6 +167,61 @@ def getSchedules (off nowWall : Int) (message : List Nat) : Py (List SchedRec) :
   let h := hexlify message
   let data := (h.drop 90).take (h.length - 90 - 8)          -- `[90:-8]`
   let recs ← (wrap32 (data.length + 1) data).mapM (parseRecord off nowWall)
+  pure (recs.foldl (fun acc r => if acc.any (·.id == r.id) then acc else acc ++ [r]) [])
+
+/-! ### general zones -/
+
+/-- the instants `time.mktime` may return for local wall-clock second `w`: every instant that shows `w`;
+    if there is none (`w` falls in a gap) glibc normalises with one of the zone's offsets -/
+def mktimeCands (z : Zone) (w : Int) : List Int :=
+  let all := (offsetsOf z).map (w - ·)
+  let good := all.filter (fun t => wall z t == w)
+  (if good.isEmpty then all else good).eraseDups
+
+/-- `hexlify(pack("<I", int(timestamp)))` -/
+def encInstant (t : Int) : Py (List Char) :=
+  match packLE32 t with
+  | .ok b => .ok (hexlify b)
+  | .error e => .error e
+
+def encAll : List Int → Py (List (List Char))
+  | [] => .ok []
+  | t :: ts =>
+    match encInstant t, encAll ts with
+    | .ok c, .ok cs => .ok (c :: cs)
+    | .error e, _ => .error e
+    | _, .error e => .error e
+
+/-- `time_to_hexadecimal_timestamp`: every result the host's `mktime` may lead to -/
+def timeToHexCands (z : Zone) (now : Int) (s : List Char) : Py (List (List Char)) :=
+  match parseClock s with
+  | .error e => .error e
+  | .ok (h, m) => encAll (mktimeCands z (targetWall z now h m))
+
+/-- `hexadecimale_timestamp_to_localtime` -/
+def hexToLocal (z : Zone) (hexTs : List Char) : Py (List Char) := do
+  let n ← pyIntHex (swap32 hexTs)
+  let w := wall z n
+  pure (dec2 ((w % 86400) / 3600).toNat ++ [':'] ++ dec2 ((w % 3600) / 60).toNat)
+
+/-- `ScheduleParser` + `SwitcherSchedule.__post_init__` in a general zone at instant `now` -/
+def parseRecordZ (z : Zone) (now : Int) (s : List Char) : Py SchedRec := do
+  let id ← pyIntHex (slice s 0 2)
+  let recurring := slice s 4 6 != cs!"00"
+  let days ← if recurring then do
+      let n ← pyIntHex (slice s 4 6)
+      bitSummaryToDays n
+    else pure []
+  let start ← hexToLocal z (slice s 8 16)
+  let stop ← hexToLocal z (slice s 16 24)
+  let duration ← calcDuration start stop
+  let display ← prettyNextRun (wall z now) start days
+  pure { id, recurring, days, start, stop, duration, display }
+
+def getSchedulesZ (z : Zone) (now : Int) (message : List Nat) : Py (List SchedRec) := do
+  let h := hexlify message
+  let data := (h.drop 90).take (h.length - 90 - 8)
+  let recs ← (wrap32 (data.length + 1) data).mapM (parseRecordZ z now)
   pure (recs.foldl (fun acc r => if acc.any (·.id == r.id) then acc else acc ++ [r]) [])
 
 end Model
